@@ -588,16 +588,16 @@ Proof.
   rewrite IH, etext_app. reflexivity.
 Qed.
 
-Lemma ends_ok_sorted : forall rn e,
-  ends_ok e rn = true -> pd_sorted 0 (map node_pdiag (rev rn)) e.
+Lemma ends_ok_sorted : forall rn hi,
+  ends_ok hi rn = true -> pd_sorted 0 (map node_pdiag (rev rn)) hi.
 Proof.
-  induction rn as [|[[[w tw] e'] k] rn IH]; intros e H; cbn [ends_ok] in H.
+  induction rn as [|[[[w tw] e] k] rn IH]; intros hi H; cbn [ends_ok] in H.
   - cbn. lia.
   - apply andb_true_iff in H. destruct H as [H H4]. apply andb_true_iff in H. destruct H as [H H3].
     apply andb_true_iff in H. destruct H as [H1 H2].
-    apply N.eqb_eq in H1. apply N.leb_le in H2. apply N.leb_le in H3. subst e'.
+    apply N.leb_le in H1. apply N.leb_le in H2. apply N.leb_le in H3.
     cbn [rev]. rewrite map_app. cbn [map].
-    eapply pd_sorted_snoc; [apply (IH (e - w) H4)| | |]; cbn [node_pdiag pd_start pd_end]; lia.
+    eapply pd_sorted_snoc; [apply (IH (e - tw) H4)| | |]; cbn [node_pdiag pd_start pd_end]; lia.
 Qed.
 
 Lemma skip_taken_nodes_spec src nodes s :
